@@ -48,6 +48,8 @@ def scenarios(tier):
     # the same through the real ROMS Grid.ll2xy (inverse bilinear interpolation) on a wide and on a tall affine grid
     out.append(dict(name="lonlat-roms-wide", fn="run", params=dict(R=2, N=3, rev=False, cont=0, mmax=1, names=False, lonlat=True, roms=(9, 5)), cost=10))
     out.append(dict(name="lonlat-roms-tall", fn="run", params=dict(R=2, N=3, rev=False, cont=0, mmax=1, names=False, lonlat=True, roms=(5, 9)), cost=10))
+    out.append(dict(name="lonlat-roms-wide-fixed", fn="run", params=dict(R=2, N=3, rev=False, cont=0, mmax=1, names=False, lonlat=True, roms=(9, 5), fixedpos=True), cost=5))
+    out.append(dict(name="lonlat-roms-tall-fixed", fn="run", params=dict(R=2, N=3, rev=False, cont=0, mmax=1, names=False, lonlat=True, roms=(5, 9), fixedpos=True), cost=5))
     return out
 
 
@@ -78,8 +80,15 @@ def run(W, p):
         for i in range(R):
             W.assume((mc[i] - min(mc)) % cont == 0, "file times on the frequency grid anchored at the first file time (first in simulation order)")
     mult = [W.idx(W.int(f"mult{i}", 0, p["mmax"])) for i in range(R)]
-    xs = [W.real(f"x{i}") for i in range(R)]
-    ys = [W.real(f"y{i}") for i in range(R)]
+    if p.get("fixedpos"):
+        # concrete lon/lat (grid positions (Lr - 3 + 1/4, Mr - 3 + 1/2) and (2 + 1/4, 1 + 1/2) of the affine ROMS grid below): a change
+        # that makes the inverse iteration run to its limit stays decidable (symbolic positions make its exact Newton steps explode)
+        Lr_, Mr_ = p["roms"]
+        xs = [4 + 2 * (((Lr_ - 3), 2)[i % 2] + W.frac(1, 4)) for i in range(R)]
+        ys = [60 + (((Mr_ - 3), 1)[i % 2] + W.frac(1, 2)) * W.frac(1, 4) for i in range(R)]
+    else:
+        xs = [W.real(f"x{i}") for i in range(R)]
+        ys = [W.real(f"y{i}") for i in range(R)]
     zs = [W.real(f"z{i}", 0, 100) for i in range(R)]
     tags = [W.real(f"tag{i}") for i in range(R)]
     farms = [W.int(f"farm{i}", 0, 10 ** 6) for i in range(R)]
